@@ -35,6 +35,7 @@ func extraFacts(lf *leanFile) {
 	referrersFlowFacts(lf)
 	capabilityFacts(lf)
 	tarfsFacts(lf)
+	compactFacts(lf)
 	refFacts(lf)
 	copyFacts(lf)
 }
